@@ -25,6 +25,8 @@ def run(ctx: Ctx) -> None:
     solvers.rule_move_filters(ctx)
     solvers.rule_frontinsert(ctx)
     shapes.rule_conversion_ops(ctx)
+    from .c12 import rule_edge_keys
+    rule_edge_keys(ctx)  # the moves build their gates from dag.edges[edge]['reg']: edge splicing must propagate reg / reg_type / key
     solvers.rule_result_provenance(ctx, TRS, "TimeReversedSolver.solve", False)
     ctx.floor("own.twoqubit", 6)
     ctx.floor("typestate.fixed", 4)
